@@ -28,6 +28,7 @@ type Expression interface {
 }
 
 type expression struct {
+	node           ast.Node
 	nodeEvaluator  NodeEvaluator
 	executionState ExecutionState
 }
@@ -46,20 +47,34 @@ func NewExpression(node ast.Node) (Expression, error) {
 	}
 
 	return &expression{
+		node:           node,
 		nodeEvaluator:  nodeEvaluator,
 		executionState: CreateExecutionState(),
 	}, nil
 }
 
+// CopyReset compiles the expression again: the node evaluators hold state of their own (the
+// function state of nested lambda expressions, the run time specialisation of binary nodes)
+// that copies, which evaluate the points of different groups, must not share.
 func (se *expression) CopyReset() Expression {
+	nodeEvaluator, err := createNodeEvaluator(se.node)
+	if err != nil {
+		// Cannot happen, the same node has been compiled before.
+		nodeEvaluator = se.nodeEvaluator
+	}
 	return &expression{
-		nodeEvaluator:  se.nodeEvaluator,
+		node:           se.node,
+		nodeEvaluator:  nodeEvaluator,
 		executionState: CreateExecutionState(),
 	}
 }
 
 func (se *expression) Reset() {
 	se.executionState.ResetAll()
+	// the function state of nested lambda expressions lives in the node evaluators
+	if nodeEvaluator, err := createNodeEvaluator(se.node); err == nil {
+		se.nodeEvaluator = nodeEvaluator
+	}
 }
 
 func (se *expression) Type(scope ReadOnlyScope) (ast.ValueType, error) {
